@@ -298,7 +298,8 @@ class HistogramDensityMethod(BatchDetector):
         self.distances[self.total_batches] = self.current_distance
 
         # For each feature, calculate Epsilon, difference in distances
-        if self.total_batches > 1:
+        # per-feature change since the previous batch of the current epoch
+        if self.batches_since_reset > 1:
             self.feature_epsilons = [
                 a_i - b_i
                 for a_i, b_i in zip(feature_distances, self._prev_feature_distances)
